@@ -38,14 +38,14 @@ def one(name):
         return name, {"error": "worktree: " + out[-300:]}
     head = sh("git -C /repo log -1 --format='%h %s'")[1].strip()
     try:
-        sh(f"cp {src}/demo.py {sv}/demo_seeded.py")
-        d0, _ = sh("timeout 300 /venv/bin/python demo_seeded.py", cwd=sv, env={"PYTHONPATH": sv})
+        sh(f"mkdir -p {sv}/seeded && cp {src}/demo.py {sv}/seeded/demo.py")
+        d0, _ = sh("timeout 300 /venv/bin/python seeded/demo.py", cwd=sv, env={"PYTHONPATH": sv})
         rc, out = sh(f"git -C {sv} apply {src}/patch.diff")
         if rc:
             return name, {"error": "patch does not apply at " + head + ": " + out[-300:]}
         t, tout = sh("timeout 900 /venv/bin/python -m pytest -q -p no:cacheprovider --timeout=900 -x", cwd=sv)
         tail = [l for l in tout.strip().splitlines() if l.strip()][-1] if tout.strip() else ""
-        d1, _ = sh("timeout 300 /venv/bin/python demo_seeded.py", cwd=sv, env={"PYTHONPATH": sv})
+        d1, _ = sh("timeout 300 /venv/bin/python seeded/demo.py", cwd=sv, env={"PYTHONPATH": sv})
         t0 = time.time()
         c, cout = sh(f"./check {prop} --tier quick", cwd=VERIF, env={"VERIF_REPO": sv, "VERIF_SEED": "1"})
         secs = int(time.time() - t0)
